@@ -320,6 +320,18 @@ def c06_cases(rng, tier):
                 raws.append(list(ws))
     for ws in raws:
         cases.append(single_leaf_case(rng, p_output_raw(ws)))
+    # *valid* encodings of computed mutations beyond the limits a declared mutation may have (key > 1000 words, value > 10000
+    # words; the memory limit of 10240 words leaves room for both): memory is zero-filled and a few words are stored
+    def p_sparse(total, stores):
+        out = [P(total), op("ALOC"), op("POP")]
+        for i, w in stores:
+            out += [P(w), P(i), op("STO")]
+        return out + [P(2)]
+    for kl in (1000, 1001, 4000, 10236):
+        cases.append(single_leaf_case(rng, p_sparse(kl + 4, [(0, 1), (1, kl), (kl + 2, 1), (kl + 3, 9)])))
+    for vl in (10000, 10001, 10200, 10236):
+        cases.append(single_leaf_case(rng, p_sparse(vl + 4, [(0, 1), (1, 1), (2, 5), (3, vl)])))
+    cases.append(single_leaf_case(rng, p_sparse(10240, [(0, 1), (1, 1001), (1003, 9230)])))
     # two data outputs of one solution / two solutions colliding or not
     cases.append(single_leaf_case(rng, p_output_raw([1, 1, 5, 1, 6]), sols=[(ADDR_A, ADDR_B, [], [([5], [1])])]))
     cases.append(single_leaf_case(rng, p_output_raw([1, 1, 5, 1, 6]), sols=[(ADDR_A, ADDR_B, [], []), (ADDR_A, ADDR_B, [[1]], [])]))
@@ -625,6 +637,25 @@ def c03_case(rng, shape, read_key, n, declared, computed, pre, other_contract=Fa
     return case, expected
 
 
+def c03_odd_cases(rng, tier):
+    cases, oracles = [], []
+    shapes = ["leaf", "chain", "chain_rev", "diamond"]
+    pre_sets = [{}, {(1,): [11], (2,): [22, 23], (3,): []}]
+    # a first-pass data-output leaf whose Push immediates contain, at some byte position, the opcode of a post-state read / a Push
+    # / an effect op (a scanner that loses step reads them as ops and defers the leaf: its mutation then misses the post-state
+    # view of the reader); the mutated slot is the one the reader asks for
+    OPB = (0x82, 0x83, 0x01, 0x80, 0x81, 0x65, 0x66)
+    odd_words = [b for b in OPB] + [b - 256 for b in OPB if b >= 0x80] + [(b << 8) | 7 for b in OPB[:2]] + \
+        [int.from_bytes(bytes([0x83] * 8), "big", signed=True), int.from_bytes(bytes([0x82, 1] * 4), "big", signed=True), 386, 257]
+    for i, w in enumerate(odd_words):
+        for shape in (shapes if tier != "quick" else [shapes[i % len(shapes)], shapes[(i + 1) % len(shapes)]]):
+            for computed, rk in ((([2], [w]), [2]), (([w], [5, 6]), [w])):
+                c, e = c03_case(rng, shape, rk, rng.choice([1, 2]), [], computed, rng.choice(pre_sets), collect_all=rng.random() < 0.5)
+                cases.append(c)
+                oracles.append("o_expect " + expect_tok(e) + " " + c)
+    return cases, oracles
+
+
 def c03_cases(rng, tier):
     cases, oracles = [], []
     pre_sets = [{}, {(1,): [11], (2,): [22, 23], (3,): []}, {(I64_MAX,): [9], (0, I64_MAX): [8], (1, I64_MIN): [7]}]
@@ -650,6 +681,9 @@ def c03_cases(rng, tier):
                         maddr=rng.choice([0, 0, 1, 257]))
         cases.append(c)
         oracles.append("o_expect " + expect_tok(e) + " " + c)
+    oc, oo = c03_odd_cases(rng, tier)
+    cases += oc
+    oracles += oo
     # long ranges (bulk-read territory) that cross a carry into a more significant key word, with mutated keys before the
     # carry, right after it, at both ends of the range and outside it
     for n in (63, 64, 65, 100):
@@ -1112,6 +1146,10 @@ def c01_cases(rng, tier):
             case = check_case("twopass", ca, [(ADDR_A, ADDR_B, [], [])], [(ADDR_A, ADDR_B, (nodes, edges))], [pc, pr], [])
             cases.append(case)
             oracles.append("o_ref " + expect_tok("invalid") + " " + case)
+    # first-pass data-output leaves with opcode-like Push immediates feeding a post-state reader (see c03_odd_cases)
+    oc, oo = c03_odd_cases(rng, "quick")
+    cases += oc
+    oracles += oo
     # long-running but successful programs (implementation only): the check gives a program no gas budget of its own, so a
     # leaf that loops for a long time and ends with [1] is accepted (a parent doing the same hands its stack on)
     for iters in ((1 << 16, 3_000_000) if tier == "quick" else (1 << 16, 3_000_000, 30_000_000, 90_000_000, 400_000_000)):
@@ -1235,4 +1273,11 @@ def c02_cases(rng, tier):
     extra = rng.sample(c1, min(len(c1), 40 if tier == "quick" else 120)) + rng.sample(c3, min(len(c3), 30 if tier == "quick" else 100)) + \
         rng.sample(c10, min(len(c10), 40 if tier == "quick" else 120))
     cases += extra
-    return cases, [pre + c for c in cases]
+    oracles = [pre + c for c in cases]
+    # many solutions with large predicate data, PredicateExists first executed inside 64 Compute children: the shared lazily
+    # initialised hash set is built while sibling children are waiting for it (implementation only: every pool size must return,
+    # and return what one worker returns; a pool that never answers is reported as `timeout`)
+    sizes2 = [3, 4, 8, 16]
+    for c in V.pex_race_cases(breadths=(64,), slot_words=2000, slots=2, nsols=48):
+        oracles.append(f"o_pool {len(sizes2)} " + " ".join(map(str, sizes2)) + f" {4 if tier == 'quick' else 8} " + c)
+    return cases, oracles
